@@ -39,6 +39,12 @@ def class_sweep(ctx):
                 for m in masks:
                     cases.append(("hs", h, t, n, m, "drop"))
                 cases.append(("hs", h, t, n, (1 << n) - 1, "init"))
+    # impossible lengths (the byte size overflows / exceeds isize::MAX): whatever the constructor does — refuse with a
+    # panic, or succeed for zero-sized elements — the header it was given is destroyed exactly once and no element is
+    for h in H_CLASSES:
+        for t in T_CLASSES:
+            for n in (2 ** 62, 2 ** 63 - 1, 2 ** 64 - 1):      # every non-zero element size here is >= 3 bytes: the byte size is impossible
+                cases.append(("hsov", h, t, n))
     for t in T_CLASSES:
         for n in [1, 2, 3]:
             for sh in (0, 1):
@@ -49,8 +55,10 @@ def class_sweep(ctx):
     lines = []
     mhist = []
     for c in cases:
-        lines.append(" ".join(str(x) for x in c))
-        if c[0] == "hs":
+        lines.append(" ".join(str(x) for x in c) if c[0] != "hsov" else "hs %s %s %d 0 drop" % (c[1], c[2], c[3]))
+        if c[0] == "hsov":
+            ops = ["reset"]
+        elif c[0] == "hs":
             _, h, t, n, m, fin = c
             ops = ["reset", "create 0 hsUninit 9:9 %d" % n] + ["writeSlot 0 %d %d:1" % (i, 100 + i) for i in range(n) if m >> i & 1]
             ops += ["drop 0"] if fin == "drop" else ["conv 0 assumeInit", "conv 0 shareable", "clone 1 0", "drop 0", "drop 1"]
@@ -70,7 +78,16 @@ def class_sweep(ctx):
     for k, c in enumerate(cases):
         obs = dict(x.split("=", 1) for x in (ilines[k].split() if k < len(ilines) else ["st=missing"]))
         mobs = [hist.parse_obs(x) for x in mh[k][1:]]
-        if c[0] == "hs":
+        if c[0] == "hsov":
+            _, h, t, n = c
+            why = []
+            if obs.get("st") not in ("ok", "panic"):
+                why.append("status %s" % obs.get("st"))
+            if int(obs.get("hdrop", -1)) != (1 if HAS_DROP.get(h) else 0):
+                why.append("length %d: the header was destroyed %s times (exactly once is required, also when the constructor refuses the length)" % (n, obs.get("hdrop")))
+            if int(obs.get("edrop", 0)) != 0:
+                why.append("%s element destructor runs although no element was ever written" % obs.get("edrop"))
+        elif c[0] == "hs":
             _, h, t, n, m, fin = c
             m_hdr = sum(1 for o in mobs for e in o["ev"] if e == "drop:9")
             m_el = sum(1 for o in mobs for e in o["ev"] if e.startswith("drop:") and e != "drop:9")
